@@ -20,6 +20,139 @@ fn cancel_world(ctx: &mut Ctx) {
     ctx.check_panics();
 }
 
+
+/// "The socket's state is as if the abandoned call had not been made" for what a recv does besides
+/// delivering: releasing peers that have closed. A peer closes; another peer's admission is held
+/// up (it stops reading right after the handshake, so whatever the socket writes to it on
+/// admission blocks); a recv is abandoned after k polls; afterwards the closed peer must still be
+/// released by later recv calls, nothing may be lost, and the socket must be usable.
+fn release_after_abandoned_recv(ctx: &mut Ctx) {
+    world::swarm(ctx, SwarmOpts::default());
+    let kind = RECV_KINDS[(ctx.idx % RECV_KINDS.len() as u64) as usize];
+    let k = 1 + ctx.plan(3) as u32;
+    let ntopics = 1 + ctx.plan(3) as usize;
+    let eof_seen_first = ctx.plan(3) != 0;
+    let topic_len = ctx.plan_pick(&[1usize, 200, 70_000]);
+    let viol: Rc<RefCell<Vec<(&'static str, String)>>> = Rc::new(RefCell::new(Vec::new()));
+    let done = Rc::new(RefCell::new(false));
+    let (vl, dn) = (viol.clone(), done.clone());
+    let old_conn: Rc<RefCell<Option<std::sync::Arc<rt::net::Conn>>>> = Rc::new(RefCell::new(None));
+    let oc = old_conn.clone();
+    rt::task::spawn_local("app", async move {
+        let mut sock = crate::socks::AnySock::new(kind, None);
+        if kind == crate::socks::Kind::Sub {
+            let _ = sock.subscribe("").await;
+            for t in 1..ntopics {
+                let _ = sock.subscribe(&format!("{t}").repeat(topic_len)).await;
+            }
+        }
+        let ep = sock.bind("tcp://127.0.0.1:0").await.expect("bind").to_string();
+        let peer_type = kind.peers()[0];
+        let msg = |o: u16, n: u32| -> Vec<Vec<u8>> {
+            let mut m = if kind == crate::socks::Kind::Rep { vec![vec![]] } else { vec![] };
+            let mut body = tagged(o, n, &[3]);
+            if kind == crate::socks::Kind::Xpub {
+                body[0].insert(0, 1);
+            }
+            m.extend(body);
+            m
+        };
+        // P1 joins, is heard, closes
+        let mut p1 = RawPeer::connect(&ep).expect("connect");
+        if p1.hello(peer_type, None).await.is_err() {
+            return world::park().await;
+        }
+        let _ = p1.send_msg(&msg(1, 0)).await;
+        let mut got: Vec<(u16, u32)> = Vec::new();
+        while let Some(r) = rt::future::or_idle(sock.recv()).await {
+            if let Ok(m) = r {
+                if let Some(t) = tag_of(&from_zmq(&m)) {
+                    got.push(t);
+                }
+                if kind == crate::socks::Kind::Rep {
+                    let _ = sock.send(to_zmq(&[b"r".to_vec()])).await;
+                }
+            }
+        }
+        *oc.borrow_mut() = Some(p1.conn.clone());
+        p1.close();
+        if eof_seen_first {
+            // the end of P1's stream is consumed inside a recv that is still waiting
+            let _ = rt::future::or_idle(sock.recv()).await;
+        }
+        // P2: everything the socket writes after its own greeting and READY is held up
+        let mut p2 = RawPeer::connect(&ep).expect("connect");
+        let hs = 64 + rc::ready_for(kind.name(), None).len();
+        p2.conn.set_auto_drain(1, false);
+        p2.conn.set_cap(1, hs);
+        let _ = p2.hello(peer_type, None).await;
+        rt::task::idle().await;
+        rt::count("probe_admission_held_up");
+        // the abandoned recv
+        // (at most k polls; fewer if nothing wakes the call again)
+        let r = rt::future::or_idle(rt::future::poll_budget(sock.recv(), k)).await.flatten();
+        if r.is_none() {
+            rt::count("probe_recv_abandoned_while_pending");
+        }
+        if let Some(Ok(m)) = r {
+            if let Some(t) = tag_of(&from_zmq(&m)) {
+                got.push(t);
+            }
+        }
+        // P2 starts reading; later recv calls run to completion
+        p2.conn.set_cap(1, 1 << 40);
+        p2.conn.set_auto_drain(1, true);
+        rt::task::idle().await;
+        let _ = p2.send_msg(&msg(2, 0)).await;
+        for _ in 0..3 {
+            while let Some(r) = rt::future::or_idle(sock.recv()).await {
+                if let Ok(m) = r {
+                    if let Some(t) = tag_of(&from_zmq(&m)) {
+                        got.push(t);
+                    }
+                    if kind == crate::socks::Kind::Rep {
+                        let _ = sock.send(to_zmq(&[b"r".to_vec()])).await;
+                    }
+                }
+            }
+        }
+        if got != vec![(1, 0), (2, 0)] {
+            vl.borrow_mut().push(("lost_or_reordered", format!("{}: delivered {:?}, the two peers sent (1,0) and (2,0)", kind.name(), got)));
+        }
+        if kind == crate::socks::Kind::Sub {
+            if let Err(e) = sock.subscribe("later").await {
+                vl.borrow_mut().push(("socket_unusable_after_abandoned_recv", format!("SUB: subscribe() after the abandoned recv failed: {e} (a peer that closed its connection long ago is still in the peer table)")));
+            }
+        }
+        rt::task::idle().await;
+        *dn.borrow_mut() = true;
+        world::park().await;
+        drop(sock);
+        drop(p2);
+    });
+    let end = ctx.sim.run(400_000);
+    if end == rt::RunEnd::Budget {
+        ctx.violation("no_quiescence", format!("{}: no quiescence", kind.name()));
+    }
+    ctx.check_panics();
+    for (c, d) in viol.borrow().clone() {
+        ctx.violation(&format!("{c}:{}", kind.name()), d);
+    }
+    if *done.borrow() {
+        if let Some(c) = old_conn.borrow().as_ref() {
+            if !c.released(1) {
+                ctx.violation(&format!("closed_peer_not_released_after_abandoned_recv:{}", kind.name()), format!("{}: a peer closed its connection, a recv was abandoned after {k} poll(s) while another peer's admission was held up, and although later recv calls ran to completion the socket still holds the closed connection at quiescence", kind.name()));
+            }
+        }
+        ctx.nontrivial();
+    } else if end == rt::RunEnd::Quiescent && ctx.sim.rt.panics.borrow().is_empty() {
+        ctx.violation("stuck", format!("{}: the scenario never completed", kind.name()));
+    }
+    if ctx.want_sample {
+        ctx.out.sample = Some(format!("{}: peer closes, admission of another held up, recv abandoned after {k} polls (EOF consumed before: {eof_seen_first})", kind.name()));
+    }
+}
+
 #[derive(Default)]
 struct ReqLog {
     events: Vec<String>,
@@ -186,10 +319,11 @@ pub fn def() -> PropDef {
     PropDef {
         id: "C14",
         level: "fault_enumeration",
-        rule: "cancel_world: case index selects socket type (idx mod 6) and fault mix; the application wraps up to 24 recv calls in 'poll k times then drop' with k in 0..5 drawn per call while messages arrive under random segmentation, so cancellation points fall at arbitrary byte-arrival positions; req_abandon: 1..3 rounds of send / abandoned recv (k in 0..4) / out-of-turn send / owed recv against a scripted REP with random reply delay; non-trivial = at least one recv future was actually dropped while pending; distinct = distinct (plan, schedule, transport) hashes",
+        rule: "cancel_world: case index selects socket type (idx mod 6) and fault mix; the application wraps up to 24 recv calls in 'poll k times then drop' with k in 0..5 drawn per call while messages arrive under random segmentation, so cancellation points fall at arbitrary byte-arrival positions; release_after_abandoned_recv: socket type (6) x poll budget 1..3 x EOF consumed before or inside the abandoned call x 1..3 subscriptions of 1 B .. 70 kB (SUB): a peer closes, another peer stops reading right after the handshake so that whatever the socket writes on admission blocks, a recv is abandoned, the second peer resumes; at quiescence the closed connection must be released, both peers' messages delivered once, subscribe() must succeed; req_abandon: 1..3 rounds of send / abandoned recv (k in 0..4) / out-of-turn send / owed recv against a scripted REP with random reply delay; non-trivial = at least one recv future was actually dropped while pending; distinct = distinct (plan, schedule, transport) hashes",
         assumptions: &["the cancellation fault is 'drop the recv future after k polls', which is what select!, timeouts and proxy() do", "enumeration is over socket type x poll budget 0..5; byte-arrival positions are sampled by the transport knobs, not enumerated"],
         strata: vec![
             Stratum { name: "cancel_world", quick: 120_000, thorough: (2_000_000) * 3, exhaustive: (false, false), run: cancel_world, what: "PULL/SUB/DEALER/ROUTER/REP/XPUB with abandoned recvs; C05 oracle" },
+            Stratum { name: "release_after_abandoned_recv", quick: 40_000, thorough: 2_000_000, exhaustive: (false, false), run: release_after_abandoned_recv, what: "a peer closes, another peer's admission is held up, a recv is abandoned after k polls: the closed peer is still released later, nothing is lost, SUB can still subscribe" },
             Stratum { name: "req_abandon", quick: 60_000, thorough: (1_000_000) * 3, exhaustive: (false, false), run: req_abandon, what: "REQ protocol state after an abandoned recv" },
         ],
     }
